@@ -145,9 +145,20 @@ static uint32_t fnv32(const uint8_t *p, size_t n) {
     return h;
 }
 
+/* blocks the device refuses to read ("badblk <n>", "badblk clear"): the fault model of Model/FileIO.v */
+#define BADBLK_MAX 32
+static uint32_t badblk[BADBLK_MAX];
+static int badblk_n = 0;
+static int is_badblk(uint32_t n) { for (int i = 0; i < badblk_n; i++) if (badblk[i] == n) return 1; return 0; }
+
 static int io_hook(int is_write, uint32_t n, unsigned size, const uint8_t *wbuf, uint8_t *rbuf) {
     if (!is_write) {
         n_reads++; rd_since++; reads_this_call++;
+        if (badblk_n && is_badblk(n)) {
+            if (wlog && wlog_reads) fprintf(wlog, "R %u %u\n", n, size);
+            if (rbuf && !garbage_keep) memset(rbuf, garbage_byte, size);
+            return -1;
+        }
         if (read_limit && reads_this_call > read_limit && bail_armed) siglongjmp(bail, 1);
         if (wlog && wlog_reads) fprintf(wlog, "R %u %u\n", n, size);
         if (fault_rd && (rd_since == fault_rd || (fault_sticky && rd_since > fault_rd))) {
@@ -725,6 +736,7 @@ int main(int argc, char **argv) {
         else if (!strcmp(c, "stat")) { int h = atoi(a[1]); if (!fh[h]) { out("err nohandle"); continue; }
             out("ok pos=%u size=%u eof=%d", adfFileGetPos(fh[h]), adfFileGetSize(fh[h]), adfEndOfFile(fh[h])); }
         else if (!strcmp(c, "atrack")) { atrack_n = 0; out("ok"); }
+        else if (!strcmp(c, "badblk")) { if (!strcmp(a[1], "clear")) badblk_n = 0; else if (badblk_n < BADBLK_MAX) badblk[badblk_n++] = (uint32_t)strtoul(a[1], NULL, 0); out("ok"); }
         else if (!strcmp(c, "hstate")) { /* hstate <h> : the fields of struct AdfFile the handle model (Model/FileIO.v) has, read directly */
             int h = atoi(a[1]); if (!fh[h]) { out("err nohandle"); continue; }
             struct AdfFile *f = fh[h];
